@@ -91,7 +91,9 @@ def _do_transfer(  # noqa: C901
         logger.debug("transfer dir: %s with %d files", dir_hash, len(bound_file_ids))
 
         dir_fails = _add(src, dest, bound_file_ids, **kwargs)
-        if dir_fails:
+        # NOTE: files shared with a previously processed dir are not bound to
+        # this one, so we also need to check whether any of them failed
+        if dir_fails or entry_ids & failed_ids:
             logger.debug(
                 "failed to upload full contents of '%s', aborting .dir file upload",
                 dir_hash,
